@@ -47,6 +47,7 @@ mod proofs {
     instantiate_aad!(V = V, TAG = 48);
     instantiate_paserk!(V = V, PIE_OVER = 80, SECRET_LEN = 48, PW_PREFIX = 52, PW_OVER = 100, PW_PARAMS_OFF = 32, PW_PARAMS_LEN = 4, ARM = arm, DRAWS = draws);
     instantiate_pke!(V = V, PKE_LEN = 129, RCPT = rcpt(), ARM = arm, DRAWS = draws);
+    instantiate_keys!(V = V, PUB_LEN = 49, SEC_LEN = 48, PUB_IN_SECRET = None, PUB_LENS = &[49, 97], ID_DOM = vmodel::D_SHA384, ID_PREFIX = &[], PASERK = b"k3");
 
     h!(local_nonce_is_draw_, local_nonce_is_draw::<V>(32, last_draw));
 
